@@ -135,8 +135,16 @@ func cmpAVP(got *dict.AVP, err error, want *refdict.XAVP, isU32 bool, app, code,
 
 // c17Queries compares every lookup of the key space between the library parser and the model.
 // It returns the number of queries and the first disagreement.
+// c17Future is the model of ALL dictionaries of the history being run: its applications, codes
+// and names are asked for after every Load, i.e. also while they are still undefined (a lookup
+// made before a definition is loaded must not influence the lookups made afterwards).
+var c17Future *refdict.Model
+
 func c17Queries(p *dict.Parser, m *refdict.Model, prevResolvable map[string]bool, nowResolvable map[string]bool) (int, string, string) {
 	apps := append([]uint32{}, m.AppIDs()...)
+	if c17Future != nil {
+		apps = append(apps, c17Future.AppIDs()...)
+	}
 	for child := range refdict.Parents {
 		apps = append(apps, child)
 	}
@@ -165,6 +173,14 @@ func c17Queries(p *dict.Parser, m *refdict.Model, prevResolvable map[string]bool
 		}
 		codes[ck{v.Code + 1, v.Vendor}] = true
 		codes[ck{v.Code - 1, refdict.AnyVendor}] = true
+	}
+	if c17Future != nil {
+		for _, v := range c17Future.All {
+			for _, ven := range []uint32{v.Vendor, refdict.AnyVendor} {
+				codes[ck{v.Code, ven}] = true
+				names[nk{v.Name, ven}] = true
+			}
+		}
 	}
 	names[nk{"No-Such-AVP", refdict.AnyVendor}] = true
 	n := 0
@@ -266,6 +282,11 @@ func c17RunHistory(h c17History, ctx *ev.Ctx) (queries int, cs *C17Case, what st
 	p, _ := dict.NewParser()
 	m := refdict.NewModel()
 	prev := map[string]bool{}
+	c17Future = refdict.NewModel()
+	for _, x := range h.xmls {
+		c17Future.Load(x)
+	}
+	defer func() { c17Future = nil }()
 	for i, x := range h.xmls {
 		if err := p.Load(bytes.NewReader([]byte(x))); err != nil {
 			return queries, &C17Case{History: h.name, Step: i + 1}, "Load failed: " + err.Error()
@@ -372,7 +393,7 @@ func runC17(ctx *ev.Ctx) {
 	}
 	ctx.Set("lookups_compared", total)
 	ctx.AddEvals(total, total)
-	ctx.Rule = "loading histories: the embedded dictionaries (extracted from diam/dict/default.go) in default order, every rotation and every adjacent swap; a generated family of four 3-AVP dictionaries that redefine each other's codes and names across application 0 / 4 / 16777251 and vendor variants, in all 24 orders, alone and on top of the base dictionary. After every Load - and after Loads that are rejected (a re-declared command, an undeclarable data type, truncated XML) following the first and the last dictionary of each history: FindAVPWithVendor by uint32 code, by int code and by name, FindAVP by int, FindCommand and App(id[,type]) for every application (loaded, children of the parent map, 0, an unrelated id) x every code / name present anywhere plus +-1 neighbours x vendor {declared, 0, another, wildcard} are compared with the reference model, and everything resolvable before the Load must still be. Distinct by (history, query)."
+	ctx.Rule = "loading histories: the embedded dictionaries (extracted from diam/dict/default.go) in default order, every rotation and every adjacent swap; a generated family of four 3-AVP dictionaries that redefine each other's codes and names across application 0 / 4 / 16777251 and vendor variants, in all 24 orders, alone and on top of the base dictionary. After every Load - and after Loads that are rejected (a re-declared command, an undeclarable data type, truncated XML) following the first and the last dictionary of each history: FindAVPWithVendor by uint32 code, by int code and by name, FindAVP by int, FindCommand and App(id[,type]) for every application (loaded, children of the parent map, 0, an unrelated id) x every code / name present anywhere plus +-1 neighbours x vendor {declared, 0, another, wildcard} (the key space is that of ALL dictionaries of the history, so keys are also looked up while still undefined) are compared with the reference model, and everything resolvable before the Load must still be. Distinct by (history, query)."
 	ctx.Assume = []string{"reference model refdict: application -> documented parents (16777251->4, 16777238->4, 4->1) -> base; exact vendor or wildcard; last load wins"}
 }
 
